@@ -79,7 +79,12 @@ class HashClient:
         self.retry_timeout = retry_timeout
         self.dead_timeout = dead_timeout
         self.use_pooling = use_pooling
-        self.key_prefix = key_prefix
+        # Client and PooledClient accept a str prefix and encode it; the key check
+        # done here before routing needs the same bytes.
+        if isinstance(key_prefix, str):
+            self.key_prefix = key_prefix.encode("ascii")
+        else:
+            self.key_prefix = key_prefix
         self.ignore_exc = ignore_exc
         self.allow_unicode_keys = allow_unicode_keys
         self._failed_clients = {}
